@@ -219,6 +219,19 @@ fn single_failure(f: Fmt, s: &str) -> Option<String> {
     if a != b {
         return Some(format!("parsing {:?} twice gave {} and then {}", s, a, b));
     }
+    // equal by the library's own == as well (two parses build two independent values)
+    if let (Ok(Ok(x)), Ok(Ok(y))) = (enum_parse_value(f, s), enum_parse_value(f, s)) {
+        if let Obs::Ret(false) = observe(|| x == y) {
+            return Some(format!("two parses of {:?} are semantically identical ({}) but compare unequal with ==", s, a));
+        }
+        // and equal to the value parse_multi returns for it after another input
+        let r = observe(|| f.e().parse_multi(["A.", s]).into_iter().nth(1));
+        if let Obs::Ret(Some(Ok(z))) = r {
+            if let Obs::Ret(false) = observe(|| x == z) {
+                return Some(format!("parse_multi's value for {:?} compares unequal (==) with the value of a solo parse", s));
+            }
+        }
+    }
     let c = match observe(|| f.e().parse_chars::<Narsese>(s.chars().collect()).map(|v| canon_real_narsese(&v)).map_err(|e| e.to_string())) {
         Obs::Ret(Ok(c)) => format!("Ok({})", c),
         Obs::Ret(Err(_)) => "Err".to_string(),
